@@ -45,7 +45,12 @@ Elem ==
     WithAny  |-> [kind |-> "message", parent |-> "", pkg |-> "pkg"],
     \* a method whose response type lives in a file that a.proto imports for nothing else
     Far      |-> [kind |-> "method", parent |-> "Svc", pkg |-> "pkg"],
-    Remote   |-> [kind |-> "message", parent |-> "", pkg |-> "pkg"] ]
+    Remote   |-> [kind |-> "message", parent |-> "", pkg |-> "pkg"],
+    \* a chain of extensions: ExtVal (the type of ext_field) is itself extended by ext_chain, whose type ChainVal is
+    \* extended by the scalar ext_leaf
+    ChainVal |-> [kind |-> "message", parent |-> "", pkg |-> "pkg"],
+    ext_chain |-> [kind |-> "extension", parent |-> "", pkg |-> "pkg"],
+    ext_leaf |-> [kind |-> "extension", parent |-> "", pkg |-> "pkg"] ]
 E == DOMAIN Elem
 \* the file that declares each element
 FileOf == [e \in E |-> IF Elem[e].pkg = "opts" THEN "opts.proto"
@@ -61,12 +66,14 @@ Fields ==
     MapVal |-> {<<"v", "">>}, Ext |-> {}, ExtVal |-> {<<"e", "">>}, WithOpt |-> {<<"w", "">>}, Lonely |-> {<<"l", "">>},
     OptMsg |-> {<<"note", "">>},
     WithOpt2 |-> {<<"w2", "">>}, UsesKind |-> {<<"k", "Kind">>}, Payload |-> {<<"p", "">>},
-    Holder |-> {<<"extra", "">>}, WithAny |-> {<<"a", "">>}, Remote |-> {<<"r", "">>} ]
+    Holder |-> {<<"extra", "">>}, WithAny |-> {<<"a", "">>}, Remote |-> {<<"r", "">>}, ChainVal |-> {<<"cv", "">>} ]
 Messages == DOMAIN Fields
 \* methods: input, output
 MethodIO == [Get |-> <<"In", "Out">>, Other |-> <<"Unrelated", "MapVal">>, Far |-> <<"In", "Remote">>]
 \* extensions: extendee ("" = a descriptor.proto options message), value type ("" = scalar)
-ExtInfo == [ext_field |-> <<"Ext", "ExtVal">>, msg_opt |-> <<"", "OptMsg">>, field_opt |-> <<"", "">>, any_opt |-> <<"", "Holder">>]
+ExtInfo == [ext_field |-> <<"Ext", "ExtVal">>, msg_opt |-> <<"", "OptMsg">>, field_opt |-> <<"", "">>, any_opt |-> <<"", "Holder">>,
+            ext_chain |-> <<"ExtVal", "ChainVal">>, ext_leaf |-> <<"ChainVal", "">>]
+Extensions == {x \in E : Elem[x].kind = "extension"}
 \* custom options used by elements
 UsesOptions == [e \in E |-> IF e = "WithOpt" THEN {"msg_opt", "field_opt"} ELSE IF e = "WithOpt2" THEN {"field_opt"}
                               ELSE IF e = "WithAny" THEN {"any_opt"} ELSE {}]
@@ -83,8 +90,10 @@ Names == E \cup Packages
 Expand(n) == IF n \in Packages THEN {e \in E : Elem[e].pkg = n} ELSE {n}
 
 \* ------------------------------------------------------------------ filters
-VARIABLES include, exclude, customOptions
-vars == <<include, exclude, customOptions>>
+VARIABLES include, exclude, customOptions,
+          knownExt   \* known-extension retention (the default of buf build --type and of buf generate): the extensions of a
+                     \* message that is kept are kept with it
+vars == <<include, exclude, customOptions, knownExt>>
 SmallSubsets(S, n) == {T \in ({{}} \cup {{a} : a \in S} \cup {{a, b} : a \in S, b \in S} \cup
                               (IF n >= 3 THEN {{a, b, c} : a \in S, b \in S, c \in S} ELSE {})) : Cardinality(T) <= n}
 Init == /\ include \in SmallSubsets(Names, MaxNames)
@@ -93,6 +102,8 @@ Init == /\ include \in SmallSubsets(Names, MaxNames)
         /\ Cardinality(include) + Cardinality(exclude) >= 1
         /\ include \cap exclude = {}
         /\ customOptions \in BOOLEAN
+        \* (retention only matters for a filter that includes something; it is combined with custom options on)
+        /\ knownExt \in BOOLEAN /\ (knownExt => customOptions /\ include # {})
 Next == UNCHANGED vars
 Spec == Init /\ [][Next]_vars
 
@@ -110,8 +121,8 @@ Conflict == \/ I \cap X # {}
             \/ \E x \in I : Elem[x].kind = "extension" /\ ExtDropped(x)
 \* (every file of the schema is a target file of the image, none is an import)
 Roots == IF include = {} THEN {e \in E : e \notin X} ELSE I
-\* direct needs of a kept element
-Needs(e) ==
+\* direct needs of a kept element, without known-extension retention
+NeedsBase(e) ==
   LET k == Elem[e].kind IN
   (IF k = "message" THEN {f[2] : f \in {g \in Fields[e] : g[2] # "" /\ g[2] \notin X}} ELSE {})
   \cup (IF k = "service" THEN {m \in Children(e) : ~MethodDropped(m)} ELSE {})
@@ -119,6 +130,21 @@ Needs(e) ==
   \cup (IF k = "extension" THEN {x \in {ExtInfo[e][1], ExtInfo[e][2]} : x # ""} ELSE {})
   \cup (IF customOptions THEN {o \in UsesOptions[e] : ~ExtDropped(o)} ELSE {})
   \cup (IF customOptions /\ \A o \in UsesOptions[e] : ~ExtDropped(o) THEN {x \in AnyPayloads[e] : x \notin X} ELSE {})
+\* the options message of descriptor.proto a custom option extends
+OptTarget == [msg_opt |-> "MessageOptions", any_opt |-> "MessageOptions", field_opt |-> "FieldOptions"]
+\* Known extensions of a kept message of the schema.  An extension that the filter names keeps the message it
+\* extends like any other element it needs; for a custom option that message is an options message of
+\* descriptor.proto, whose other extensions - the other custom options for the same kind of element - are then
+\* retained as well.  (A custom option that is only kept because a kept element *uses* it does not make the options
+\* message a kept message in this sense.)
+KnownExtNeeds(e) ==
+  IF Elem[e].kind = "message" THEN {x \in Extensions : ExtInfo[x][1] = e /\ ~ExtDropped(x)}
+  ELSE IF Elem[e].kind = "extension" /\ e \in DOMAIN OptTarget /\ e \in UNION {Expand(n) : n \in include}
+       THEN {x \in DOMAIN OptTarget : OptTarget[x] = OptTarget[e] /\ ~ExtDropped(x)}
+  ELSE {}
+Needs(e) == NeedsBase(e) \cup (IF knownExt THEN KnownExtNeeds(e) ELSE {})
+RECURSIVE CloseBase(_)
+CloseBase(S) == LET T == S \cup UNION {NeedsBase(e) : e \in S} IN IF T = S THEN S ELSE CloseBase(T)
 RECURSIVE Close(_)
 Close(S) == LET T == S \cup UNION {Needs(e) : e \in S} IN IF T = S THEN S ELSE Close(T)
 KeptStart == {e \in Roots : ~(Elem[e].kind = "method" /\ MethodDropped(e)) /\ ~(Elem[e].kind = "extension" /\ ExtDropped(e))}
@@ -139,7 +165,11 @@ Idempotent == ~Conflict => Close(Kept) = Kept
 \* a filter over existing names fails only on a conflict between its includes and its excludes
 NoConflictWithoutInclude == include = {} => ~Conflict
 
-EmitCase == Emit => PrintT(<<"CASE", ToJson([include |-> include, exclude |-> exclude, customOptions |-> customOptions,
+\* retention never loses anything (what is kept without it is kept with it), and what it adds is extensions and
+\* what they need
+KnownExtOnlyAdds == ~Conflict => CloseBase(KeptStart) \subseteq Kept
+KnownExtIsFixpoint == (~Conflict /\ knownExt) => \A m \in Kept : KnownExtNeeds(m) \subseteq Kept
+EmitCase == Emit => PrintT(<<"CASE", ToJson([include |-> include, exclude |-> exclude, customOptions |-> customOptions, knownExt |-> knownExt,
     conflict |-> Conflict,
     survive |-> IF Conflict THEN {} ELSE Survive,
     shells |-> IF Conflict THEN {} ELSE Shells,
